@@ -161,6 +161,9 @@ def run(ctx):
     # ---- a checkpoint holds a snapshot of the history, not the live lists
     from ..report import reuse
     from . import c11
+    from . import c08
+    reuse(ctx, c08.run, ("C08.ratio", "C08.var"), "C18def", "identities shared with C08: the recorded incremental ratio (and its variance) must be the log of the mean incremental weight "
+          "over all N particles of the stored population, or it does not equal its definition recomputed from the stored populations")
     from . import c10
     reuse(ctx, lambda c: c10.own_rule(c), ("C10.own",), "C18own", "ownership rule shared with C10: the history stores the population objects themselves, so an in-place write into "
           "a caller's array rewrites a population that was already recorded")
